@@ -15,4 +15,48 @@ def d06_unclosed_two_instant_run(cls='DynGraph'):
 def match_d06(v):
     """bounded-tier violation record inside D06's region: a run of exactly two instants [s, s+1] that is not
     closed, whose second instant was added by a point add extending the single instant s"""
-    return v.get('check') in ('C05.runs_closed', 'C10.roundtrip') and v.get('d06') is True
+    c = v.get('check', '')
+    return (c.endswith('.runs_closed') or c.endswith('.replay_reconstructs_presence') or c == 'C10.roundtrip') and v.get('d06') is True
+
+
+def d09b_to_directed_one_direction():
+    g = dn.DynGraph()
+    g.add_interaction(1, 2, 0)
+    h = g.to_directed()
+    return h.has_interaction(1, 2, 0) != h.has_interaction(2, 1, 0)
+
+
+def match_d09b(v):
+    return v.get('check') == 'C16.presence' and v.get('d09') is True
+
+
+def d10_directed_listing_skips_edges():
+    g = dn.DynDiGraph()
+    g.add_interaction(1, 2, 0)
+    g.add_interaction(2, 1, 0)
+    return len(g.interactions(t=0)) == 1 and len(g.interactions()) == 1
+
+
+def match_d10(v):
+    return v.get('check', '').split('.')[-1] in ('interactions', 'dn_interactions', 'interactions_nbunch') and v.get('d10') is True
+
+
+def d11_self_loop_counted_once():
+    g = dn.DynGraph()
+    g.add_interaction(1, 1, 0)
+    g.add_interaction(1, 2, 0)
+    return g.degree(1, t=0) == 2 and g.size(t=0) == 1
+
+
+def match_d11(v):
+    return v.get('d11') is True
+
+
+def d12_density_of_a_snapshot():
+    g = dn.DynGraph()
+    g.add_interaction(1, 2, 0)
+    return dn.density(g, t=0) == 0
+
+
+def match_d12(v):
+    return v.get('check', '').endswith('.density') and v.get('d12') is True
